@@ -50,6 +50,9 @@ Decided:
          the application create_app built and is shut down on every way back into the restart loop.
   R20.i, R20.j  (c20_inert.py) the failsafe runs / imports no code named at run time; a module imported inside a
          function is known to be importable or its ImportError is caught.
+  R20.k  (c20_files.py) outside a catch-all the entries of the monitored-file list are only handled by operations that
+         are total on strings (taint list -> entry, followed into the functions of the module; a finite table of library
+         operations known to raise for some names).
 Declined: "answers 200 for every text" over non-text inputs; which traceback texts the parser recognises (C20a-1: the
 predicate on the part before the colon); arithmetic of the frame pairing loop (the page shows no frame); which files the
 failsafe waits on; environments (only ImportError of function-level imports is judged).
@@ -2747,7 +2750,8 @@ def run(rep):
                'R20.e the launcher hands over the collected text and file list; '
                'R20.f the exception line is searched from the end of the text and the search covers the last line; '
                'R20.g the child\'s stderr reaches the hook as the error text; R20.h the failsafe server is served and taken down; '
-               'R20.i no code named at run time; R20.j function-level imports cannot stop the construction')
+               'R20.i no code named at run time; R20.j function-level imports cannot stop the construction; '
+               'R20.k file names are handled by total string operations only')
     rep.decline('totality over non-text inputs (bytes/None through ashes); coverage of traceback grammars (which strings count as '
                 'the exception line: value-level, C20a-1); index arithmetic of the frame pairing loop (no frame is shown on the page)')
     rep.assume('ashes 19.2.0 filter semantics as read from the pinned source (apply_filters)')
@@ -2773,3 +2777,5 @@ def run(rep):
     from . import c20_inert
     _group(rep, c20_inert.no_code_named_at_run_time, rep, fs)
     _group(rep, c20_inert.function_level_imports, rep, fs)
+    from . import c20_files
+    _group(rep, c20_files.file_names_total, rep, fs)
